@@ -450,6 +450,43 @@ func extractCase(fset *token.FileSet, f *ast.File, spec string) (string, error) 
 			recv = "(" + name + " " + rb.String() + ") "
 		}
 		fmt.Fprintf(&buf, "// %s is generated by the verif overlay from the body of select clause %d of %s.\nfunc %s%s() {\n", newName, idx, fn, recv, newName)
+		if prelude == "@decls" {
+			// copy the value-less `var` declarations that precede the loop in the function body (the
+			// loop's scratch variables), so the extraction follows edits that add one
+			prelude = ""
+			for _, st := range fd.Body.List {
+				if _, isFor := st.(*ast.ForStmt); isFor {
+					break
+				}
+				ds, ok := st.(*ast.DeclStmt)
+				if !ok {
+					continue
+				}
+				gd, ok := ds.Decl.(*ast.GenDecl)
+				if !ok || gd.Tok != token.VAR {
+					continue
+				}
+				plain := true
+				for _, sp := range gd.Specs {
+					if vs, ok := sp.(*ast.ValueSpec); !ok || len(vs.Values) > 0 {
+						plain = false
+					}
+				}
+				if !plain {
+					continue
+				}
+				var db bytes.Buffer
+				if err := printer.Fprint(&db, fset, st); err != nil {
+					return "", err
+				}
+				buf.WriteString("\t" + db.String() + "\n")
+				for _, sp := range gd.Specs {
+					for _, n := range sp.(*ast.ValueSpec).Names {
+						buf.WriteString("\t_ = " + n.Name + "\n")
+					}
+				}
+			}
+		}
 		if prelude != "" {
 			buf.WriteString("\t" + prelude + "\n")
 		}
